@@ -2,6 +2,7 @@ import Proofs.C08
 import Proofs.C08Init
 import Proofs.TieBasis
 import Proofs.DeclBasis
+import Proofs.TieAccept
 #print axioms PV.Proofs.C08.declared_cell_bounds
 #print axioms PV.Proofs.C08.declared_site_bounds
 #print axioms PV.Proofs.C08.declared_initial_cell
@@ -49,3 +50,7 @@ import Proofs.DeclBasis
 #print axioms PV.Proofs.Tie.clamped_tie
 #print axioms PV.Proofs.Tie.sample_tie
 #print axioms PV.Proofs.DeclBasis.declared_rot_symmetry
+#print axioms PV.Proofs.Tie.declared_translated_accept
+#print axioms PV.Proofs.Tie.energy_surface_tie
+#print axioms PV.Proofs.Tie.test_acceptance_tie
+#print axioms PV.Proofs.Tie.accept_score_tie
